@@ -497,7 +497,8 @@ def bitsMethodOk (owners : Owners) (views : List ViewDef) (sty : STy) (kind : Na
     Method → Bool
   | .bits variant limit =>
     if which == n!"Deserialize" then
-      (kind == n!"bitlist" && (variant == n!"BitList" || variant == n!"ReadBitList") && limitOk lim limit) ||
+      -- (ztyp's own `dr.BitList` is not accepted: it refuses a full-length bitlist whose limit is a multiple of 8)
+      (kind == n!"bitlist" && variant == n!"ReadBitList" && limitOk lim limit) ||
       (kind == n!"bitvector" && variant == n!"BitVector" && limitOk lim limit) ||
       (kind == n!"bytelist" && variant == n!"ByteList" && limitOk lim limit)
     else if which == n!"Serialize" then
@@ -539,7 +540,7 @@ def vectorMethodOk (owners : Owners) (views : List ViewDef) (sty elem : STy) (le
   | .list variant size _ =>
     which == n!"Serialize" && variant == n!"WriteRoots" && sameSTy elem (.bytesN 32) && sizeOk owners views elem size
   -- `len(a) * size`: the slice behind a vector type holds exactly `len` elements
-  | .lenTimes size => which == n!"ByteLength" && sizeOk owners views elem (some size)
+  | .lenTimes size => which == n!"ByteLength" && isFixedS elem && sizeOk owners views elem (some size)
   | .opaque _ => true
   | m => (which == n!"ByteLength" || which == n!"FixedLength") &&
       lengthMethodOk owners views sty (which == n!"FixedLength") m
